@@ -242,6 +242,11 @@ class Cache:
         ):
             return "window function in `filter`"
 
+        # A WHERE clause is evaluated before the window functions of the same SELECT, so a
+        # window function column computed earlier would only see the rows left by the filter.
+        if isinstance(node, verbs.Filter) and any(col.ftype() == Ftype.WINDOW for col in self.cols.values()):
+            return "`filter` after a window function column"
+
         if isinstance(node, verbs.Summarize):
             if self.group_by and self.group_by != set(self.partition_by):
                 return "nested summarize"
